@@ -56,6 +56,23 @@ Definition enc32 (v : Z) (b : list N) (n : N) := leqb (write32 v) b && N.eqb (le
 Definition enc64 (v : Z) (b : list N) (n : N) := leqb (write64 v) b && N.eqb (len64 v) n.
 Definition dec32 (b : list N) (e : xr) := xr_eqb (sh (run_flat read32 b)) e.
 Definition dec64 (b : list N) (e : xr) := xr_eqb (sh (run_flat read64 b)) e.
+(* phase 4: the definitions translated from the Go source (Gen/C05gen.v): tdec32/tdec64/trb/tenc32/tenc64 *)
+From GoMC Require Import Base.GoInt Gen.C05gen.
+Inductive xt := TOk (a b : Z) (r : N) | TErr | TPanic | TFuel.
+Definition sht (r : fres (Z * Z)) : xt :=
+  match r with FOk (a, b) rest => TOk a b (lenN rest) | FErr _ => TErr | FPanic _ => TPanic | FFuel => TFuel end.
+Definition xt_eqb (a b : xt) : bool :=
+  match a, b with
+  | TOk v n r, TOk v' n' r' => Z.eqb v v' && Z.eqb n n' && N.eqb r r'
+  | TErr, TErr | TPanic, TPanic | TFuel, TFuel => true
+  | _, _ => false end.
+Definition tdec32 (br : bool) (b : list N) (e : xt) := xt_eqb (sht (run_flat (packet_VarInt_ReadFrom_io br) b)) e.
+Definition tdec64 (br : bool) (b : list N) (e : xt) := xt_eqb (sht (run_flat (packet_VarLong_ReadFrom_io br) b)) e.
+Definition trb (br : bool) (b : list N) (e : xt) := xt_eqb (sht (run_flat (packet_readByte_io br) b)) e.
+Definition tenc_ok (r : gores (Z * N * list Z)) (b : list N) (n : Z) : bool :=
+  match r with GoRet (n', e, o) => Z.eqb n' n && N.eqb e 0 && leqb (map Z.to_N o) b | GoPanic => false end.
+Definition tenc32 (v : Z) (b : list N) (n : Z) := tenc_ok (packet_VarInt_WriteTo_io v) b n.
+Definition tenc64 (v : Z) (b : list N) (n : Z) := tenc_ok (packet_VarLong_WriteTo_io v) b n.
 """
 
 
@@ -73,6 +90,16 @@ def c05(case, out):
         else:
             return None
         return "%s %s %s" % (c[0], bytes_of_hex(c[1]), e)
+    if c[0] in ("tdec32", "tdec64", "trb") and len(c) == 3 and len(o) >= 4 and c[1] in ("0", "1"):
+        if o[3] == "ok" and len(o) == 7:
+            e = "(TOk %s %s %s)" % (zlit(o[4]), zlit(o[5]), nlit(o[6]))
+        elif o[3] in ("err", "panic", "fuel") and len(o) == 4:
+            e = {"err": "TErr", "panic": "TPanic", "fuel": "TFuel"}[o[3]]
+        else:
+            return None
+        return "%s %s %s %s" % (c[0], "true" if c[1] == "1" else "false", bytes_of_hex(c[2]), e)
+    if c[0] in ("tenc32", "tenc64") and len(c) == 2 and len(o) == 4:
+        return "%s %s %s %s" % (c[0], zlit(c[1]), bytes_of_hex(o[2]), zlit(o[3]))
     return None
 
 
